@@ -261,10 +261,13 @@ def encodeDop : (fuel : Nat) → Dop → PVal → EncM Unit
       let s ← getS
       let actual := s.cursorByte - origPos
       if actual < bs then
-        -- pad the structure to BYTE-SIZE
-        modifyS fun s => { s with cursorByte := origPos + bs }
-        modifyS fun s => { s with msg := padTo s.msg (origPos + bs),
-                                  used := s.used ++ List.replicate ((padTo s.msg (origPos + bs)).length - s.msg.length) 255 }
+        -- pad the structure to BYTE-SIZE (relative to its own first byte); padding counts as "used"
+        let endPos := origPos + bs
+        let n := endPos - s.msg.length
+        let used := s.used ++ List.replicate n 0
+        setS { s with msg := s.msg ++ List.replicate n 0,
+                      used := used.take (origPos + actual) ++ List.replicate (bs - actual) 255 ++ used.drop endPos,
+                      cursorByte := endPos }
       else pure ()
   | fuel+1, .staticField count itemSize item, pv => do
     match pv with
@@ -434,8 +437,9 @@ def encodeComposite : (fuel : Nat) → List Param → PVal → EncM Unit
     if values.any (fun kv => !(ps.any fun p => p.name == kv.1)) then odxraise .odx
     encodeParams s.isEndOfPdu values fuel ps
     modifyS fun s => { s with isEndOfPdu := false }
+    let s1 ← getS
     encodeKeyValues fuel ps
-    modifyS fun s' => { s' with origin := s.origin }
+    modifyS fun s' => { s' with cursorByte := s1.cursorByte, origin := s.origin }   -- cursor stays behind the last parameter
   | _ => do odxraise .encode; raise .unmodelled                  -- lenient: AttributeError on `.get`
 end
 
